@@ -50,7 +50,8 @@ def parse_packaged(text: str, how: dict, tmp: Path):
                 data = b"\xef\xbb\xbf" + data
             f.write_bytes(data)
             names.append(str(f))
-        p = DecFileParser(*names)
+        # file names as str or as Path objects
+        p = DecFileParser(*[Path(n) if (len(n) + i) % 2 else n for i, n in enumerate(names)])
     with warnings.catch_warnings():
         warnings.simplefilter("ignore")
         p.parse()
